@@ -30,7 +30,7 @@ Theorem C02_slice_fw_spec sx sy dim off base nx ny R :
   forall d k s, In (d, (k, s)) (slice_fw sx sy dim off) <->
     exists low j high, low < base /\ j < ny /\ high < R /\ k = 0 /\
       d = flat base ny low j high /\ s = flat base nx low (j + off) high.
-Proof. intros H1 H2 H3 H4 H5 H6 H7 H8. exact (slice_fw_spec sx sy dim off base nx ny R H1 H2 H3 H4 H5 H6 H7 H8). Qed.
+Proof. exact (slice_fw_spec sx sy dim off base nx ny R). Qed.
 Print Assumptions C02_slice_fw_spec.
 
 Example C02_nonvacuous :
